@@ -185,10 +185,19 @@ func cameras(r *vlib.Run) {
 		// NewCameraAt looks at its target
 		src := model3d.XYZ(rng.NormFloat64(), rng.NormFloat64(), rng.NormFloat64()).Scale(5)
 		dst := model3d.XYZ(rng.NormFloat64(), rng.NormFloat64(), rng.NormFloat64())
-		if rng.Intn(5) == 0 {
-			dst = src.Add(model3d.Z(1 + rng.Float64())) // straight up: exercises the axis fallback
+		if rng.Intn(4) == 0 {
+			// exactly along a coordinate axis, either way (plan views, views from below): the
+			// vertical ones exercise the axis fallback
+			var a [3]float64
+			a[[]int{2, 2, 0, 1}[rng.Intn(4)]] = (1 + rng.Float64()) * float64(2*rng.Intn(2)-1)
+			dst = src.Add(model3d.NewCoord3DArray(a))
+			c.Count("camera.looking_exactly_along_an_axis", 1)
 		}
 		cam2 := render3d.NewCameraAt(src, dst, 0.2+2*rng.Float64())
+		// the ray through the image centre goes from the camera towards the target
+		if ctr := cam2.Caster(iw, ih)(iw/2, ih/2); !(ctr.Normalize().Dot(dst.Sub(src).Normalize()) > 1-1e-9) {
+			c.Violation("render3d.NewCameraAt/central-ray-towards-target", fmt.Sprintf("the ray through the image centre has direction %v, the target is in direction %v", ctr.Normalize(), dst.Sub(src).Normalize()), map[string]interface{}{"src": src, "dst": dst})
+		}
 		gx, gy := cam2.Uncaster(iw, ih)(dst)
 		if math.Abs(gx-iw/2) > 1e-7*(1+iw) || math.Abs(gy-ih/2) > 1e-7*(1+ih) {
 			c.Violation("render3d.NewCameraAt/target-at-image-centre", fmt.Sprintf("target un-projects to (%g,%g), centre is (%g,%g)", gx, gy, iw/2, ih/2), map[string]interface{}{"src": src, "dst": dst})
@@ -204,6 +213,13 @@ func cameras(r *vlib.Run) {
 		size := model3d.XYZ(0.05+rng.Float64()*4, 0.05+rng.Float64()*4, 0.05+rng.Float64()*4)
 		obj := &render3d.ColliderObject{Collider: model3d.NewRect(mn, mn.Add(size)), Material: &render3d.LambertMaterial{}}
 		dir := vlib.RandUnit3(rng)
+		if rng.Intn(4) == 0 {
+			// exactly along an axis (top, bottom, front, side views)
+			var a [3]float64
+			a[[]int{2, 2, 0, 1}[rng.Intn(4)]] = float64(2*rng.Intn(2) - 1)
+			dir = model3d.NewCoord3DArray(a)
+			c.Count("camera.directional.exactly_along_an_axis", 1)
+		}
 		fov := []float64{0, 0.3, 0.6, math.Pi / 3.6, 1.2, 2.0}[rng.Intn(6)]
 		cam := render3d.DirectionalCamera(obj, dir, fov)
 		unc := cam.Uncaster(1, 1)
